@@ -202,8 +202,12 @@ static void mont_input(const struct vp_in* pin, size_t n, word a[], V* expect, V
 	size_t i;
 	VP_ASSUME((pin->m[0] & 1) && pin->m[n - 1] != 0 && M > 1);
 	VP_ASSUME(Y < 2 * M);
-	VP_ASSUME(Y * R >= T * M);
-	A = Y * R - T * M;
+	{	/* the products are formed in 128 bits: y can be as large as 2m - 1 >= B^n, so y*R may reach 2^(2nB) and would wrap
+		 * in the 64-bit reference type (a false alarm of an earlier version of this harness: y = B^n, t = 0 gave a = 0) */
+		unsigned __int128 yr = (unsigned __int128)Y * R, tm = (unsigned __int128)T * M, mr = (unsigned __int128)M * R;
+		VP_ASSUME(yr >= tm && yr - tm < mr);     /* header precondition a < mod * R */
+		A = (V)(yr - tm);
+	}
 	for (i = 0; i < 2 * n; ++i) a[i] = (word)(A >> (BW * i));
 	*expect = Y >= M ? Y - M : Y;
 	*pM = M;
